@@ -1202,3 +1202,23 @@ def flat_calls(prog, f, expand, depth=3, _subst=None, _stack=()):
         else:
             out.append((e, args))
     return out
+
+
+ASSOC = ("std::unordered_map", "std::map", "std::unordered_set", "std::set", "std::unordered_multimap", "std::multimap")
+
+
+def is_assoc_call(e):
+    return strip_tmpl(e.get("callee") or "").rsplit("::", 1)[0] in ASSOC
+
+
+def is_subscript_store(f, e):
+    """`m[k] = v`: the operator[] call e is the target of an assignment (the only use of operator[] that overwrites)"""
+    if e.get("op") != "[]" and not (e.get("callee") or "").endswith("operator[]"):
+        return False
+    t = re.sub(r"\s+", "", e.get("t") or "")
+    for x in f.events(("assign", "call")):
+        if x["k"] == "assign" and re.sub(r"\s+", "", (x.get("lhs") or {}).get("t") or "") == t:
+            return True
+        if x["k"] == "call" and x.get("op") == "=" and re.sub(r"\s+", "", (x.get("recv") or {}).get("t") or "") == t:
+            return True
+    return False
